@@ -64,6 +64,13 @@ type Store interface {
 	DeleteTopic(ctx context.Context, name string) error
 }
 
+// ConsumerOffsetLookup is implemented by stores that can tell a partition without a committed
+// offset apart from one committed at offset 0 (FetchConsumerOffset reads both as offset 0).
+type ConsumerOffsetLookup interface {
+	// LookupConsumerOffset is FetchConsumerOffset plus whether a commit exists.
+	LookupConsumerOffset(ctx context.Context, group, topic string, partition int32) (offset int64, metadata string, found bool, err error)
+}
+
 // TopicSpec describes a topic creation request.
 type TopicSpec struct {
 	Name              string
@@ -527,6 +534,20 @@ func (s *InMemoryStore) FetchConsumerOffset(ctx context.Context, group, topic st
 	defer s.mu.RUnlock()
 	key := consumerKey(group, topic, partition)
 	return s.consumerOffsets[key], s.consumerMeta[key], nil
+}
+
+// LookupConsumerOffset implements ConsumerOffsetLookup.
+func (s *InMemoryStore) LookupConsumerOffset(ctx context.Context, group, topic string, partition int32) (int64, string, bool, error) {
+	select {
+	case <-ctx.Done():
+		return 0, "", false, ctx.Err()
+	default:
+	}
+	s.mu.RLock()
+	defer s.mu.RUnlock()
+	key := consumerKey(group, topic, partition)
+	offset, found := s.consumerOffsets[key]
+	return offset, s.consumerMeta[key], found, nil
 }
 
 // ListConsumerOffsets implements Store.ListConsumerOffsets.
